@@ -168,82 +168,108 @@ inductive LexStep where
   | tok (t : Token)
   | again            -- a comment was skipped: `return l.NextToken()`
 
-def bracesToken (s : Lx) (ty : TT) (lit : Bytes) : Token × Lx :=
-  let s1 := { s with isHTML := ty != TT.LBRACES }
-  let s2 := (s1.tokenBegins.readChar).readChar
-  (s2.newToken ty lit, s2)
+/-- a token that covers the next `n` bytes: `tokenBegins`, `n` times `readChar`, `newToken` -/
+def emit (s : Lx) (n : Nat) (ty : TT) (lit : Bytes) : Token × Lx :=
+  let s1 := s.tokenBegins.advance n
+  (s1.newToken ty lit, s1)
 
-def illegalToken (s : Lx) : Token × Lx :=
-  let c := s.char
-  let s1 := s.tokenBegins.readChar
-  (s1.newToken .ILLEGAL [c], s1)
+def bracesToken (s : Lx) (ty : TT) (lit : Bytes) : Token × Lx :=
+  emit { s with isHTML := ty != TT.LBRACES } 2 ty lit
+
+def illegalToken (s : Lx) : Token × Lx := emit s 1 .ILLEGAL [s.char]
 
 /-- one byte token at the current byte -/
-def tok1 (s : Lx) (ty : TT) (lit : Bytes) : Token × Lx :=
-  let s1 := s.tokenBegins.readChar
-  (s1.newToken ty lit, s1)
+def tok1 (s : Lx) (ty : TT) (lit : Bytes) : Token × Lx := emit s 1 ty lit
 
-def tok2 (s : Lx) (ty : TT) (lit : Bytes) : Token × Lx :=
-  let s1 := s.tokenBegins.readChar.readChar
-  (s1.newToken ty lit, s1)
+def tok2 (s : Lx) (ty : TT) (lit : Bytes) : Token × Lx := emit s 2 ty lit
 
-def readString (s : Lx) : Token × Lx :=
-  let q := s.char
-  let s1 := s.tokenBegins.readChar
-  if s1.char == q && !s1.isEOF then
-    let s2 := s1.readChar
-    (s2.newToken .STR [], s2)
+/-- number of bytes `readString` consumes (both quotes included; one less when the string is
+    not terminated) and the raw text between the quotes -/
+def strSpan (rest : Bytes) : Nat × Bytes :=
+  let q := rest.headD 0
+  let after := rest.drop 1
+  if after.headD 0 == q && !after.isEmpty then (2, [])
   else
-    let n := strScan q s1.rest
-    let raw := s1.rest.take n
-    let s2 := (s1.advance n).readChar
-    (s2.newToken .STR (replaceAll raw [92, q] [q]), s2)
+    let n := strScan q after
+    (n + 2, after.take n)
+
+/-- what a token-producing branch decides before the token is read: the state with its flags
+    updated (same bytes, same position), the number of bytes the token covers, its type and
+    literal -/
+structure TokDesc where
+  st : Lx
+  n : Nat
+  ty : TT
+  lit : Bytes
+
+def TokDesc.emit (d : TokDesc) : Token × Lx := Tw.emit d.st d.n d.ty d.lit
+
+def illegalDesc (s : Lx) : TokDesc := { st := s, n := 1, ty := .ILLEGAL, lit := [s.char] }
+
+/-- `directiveToken`: the keyword found by `readDirective` (ILLEGAL cannot happen when
+    `isDirectiveToken` said yes; Go then emits an ILLEGAL token for the byte after the keyword) -/
+def directiveDesc (s : Lx) : TokDesc :=
+  if s.char != 64 then illegalDesc s
+  else
+    let (kw, tok) := dirScan [] .ILLEGAL s.rest
+    if tok == .ILLEGAL then illegalDesc (s.tokenBegins.advance kw.length)
+    else { st := s, n := kw.length, ty := tok, lit := kw }
 
 def directiveToken (s : Lx) : Token × Lx :=
-  if s.char != 64 then illegalToken s
+  let d := directiveDesc s
+  let (t, s1) := d.emit
+  if d.ty == .ILLEGAL then (t, s1)
   else
-    let s0 := s.tokenBegins
-    let (kw, tok) := dirScan [] .ILLEGAL s0.rest
-    let s1 := s0.advance kw.length
-    if tok == .ILLEGAL then illegalToken s1
-    else
-      let hasOptionalParens := tokensWithOptionalParens.contains tok && s1.char == 40
-      let hasNoParens := tokensWithoutParens.contains tok
-      let isDir := hasOptionalParens || !hasNoParens
-      let s2 := { s1 with isDirective := isDir, isHTML := !isDir }
-      (s2.newToken tok kw, s2)
+    let hasOptionalParens := tokensWithOptionalParens.contains d.ty && s1.char == 40
+    let hasNoParens := tokensWithoutParens.contains d.ty
+    let isDir := hasOptionalParens || !hasNoParens
+    (t, { s1 with isDirective := isDir, isHTML := !isDir })
 
-def embeddedCodeToken (s : Lx) : Token × Lx :=
-  let c := s.char
-  match simpleToken c with
-  | some ty => tok1 s ty [c]
-  | none =>
-    if c == 123 then tok1 { s with braces := s.braces + 1 } .LBRACE [123]
-    else if c == 125 then tok1 { s with braces := s.braces - 1 } .RBRACE [125]
-    else if c == 40 then
-      tok1 (if s.isDirective then { s with parens := s.parens + 1 } else s) .LPAREN [40]
-    else if c == 41 then
-      let s1 := if s.isDirective then { s with parens := s.parens - 1 } else s
-      let s2 := if s1.isDirective && s1.parens == 0 then { s1 with isDirective := false, isHTML := true } else s1
-      tok1 s2 .RPAREN [41]
-    else if c == 34 || c == 39 then readString s
-    else if c == 60 then (if s.peek == 61 then tok2 s .LTHAN_EQ [60, 61] else tok1 s .LTHAN [60])
-    else if c == 62 then (if s.peek == 61 then tok2 s .GTHAN_EQ [62, 61] else tok1 s .GTHAN [62])
-    else if c == 33 then (if s.peek == 61 then tok2 s .NOT_EQ [33, 61] else tok1 s .NOT [33])
-    else if c == 45 then (if s.peek == 45 then tok2 s .DEC [45, 45] else tok1 s .SUB [45])
-    else if c == 43 then (if s.peek == 43 then tok2 s .INC [43, 43] else tok1 s .ADD [43])
-    else if c == 61 then (if s.peek == 61 then tok2 s .EQ [61, 61] else tok1 s .ASSIGN [61])
-    else if isIdentCh c then
-      let s0 := s.tokenBegins
-      let ident := s0.rest.takeWhile fun x => isIdentCh x || isNumberCh x
-      let s1 := s0.advance ident.length
-      (s1.newToken (lookupIdent ident) ident, s1)
-    else if isNumberCh c then
-      let s0 := s.tokenBegins
-      let (n, isInt) := numScan s0.rest
-      let s1 := s0.advance n
-      (s1.newToken (if isInt then .INT else .FLOAT) (s0.rest.take n), s1)
-    else illegalToken s
+def strDesc (s : Lx) : TokDesc :=
+  let q := s.char
+  let (n, raw) := strSpan s.rest
+  { st := s, n := n, ty := .STR, lit := replaceAll raw [92, q] [q] }
+
+/-- identifiers, numbers, and everything else (ILLEGAL) -/
+def wordDesc (s : Lx) : TokDesc :=
+  if isIdentCh s.char then
+    { st := s, n := (s.rest.takeWhile fun x => isIdentCh x || isNumberCh x).length,
+      ty := lookupIdent (s.rest.takeWhile fun x => isIdentCh x || isNumberCh x),
+      lit := s.rest.takeWhile fun x => isIdentCh x || isNumberCh x }
+  else if isNumberCh s.char then
+    { st := s, n := (numScan s.rest).1, ty := (if (numScan s.rest).2 then .INT else .FLOAT), lit := s.rest.take (numScan s.rest).1 }
+  else illegalDesc s
+
+/-- one or two byte operators -/
+def opDesc (s : Lx) : TokDesc :=
+  if s.char == 60 then (if s.peek == 61 then { st := s, n := 2, ty := .LTHAN_EQ, lit := [60, 61] } else { st := s, n := 1, ty := .LTHAN, lit := [60] })
+  else if s.char == 62 then (if s.peek == 61 then { st := s, n := 2, ty := .GTHAN_EQ, lit := [62, 61] } else { st := s, n := 1, ty := .GTHAN, lit := [62] })
+  else if s.char == 33 then (if s.peek == 61 then { st := s, n := 2, ty := .NOT_EQ, lit := [33, 61] } else { st := s, n := 1, ty := .NOT, lit := [33] })
+  else if s.char == 45 then (if s.peek == 45 then { st := s, n := 2, ty := .DEC, lit := [45, 45] } else { st := s, n := 1, ty := .SUB, lit := [45] })
+  else if s.char == 43 then (if s.peek == 43 then { st := s, n := 2, ty := .INC, lit := [43, 43] } else { st := s, n := 1, ty := .ADD, lit := [43] })
+  else if s.char == 61 then (if s.peek == 61 then { st := s, n := 2, ty := .EQ, lit := [61, 61] } else { st := s, n := 1, ty := .ASSIGN, lit := [61] })
+  else wordDesc s
+
+/-- braces and parentheses (they update the nesting counters and the mode) -/
+def bracketDesc (s : Lx) : TokDesc :=
+  if s.char == 123 then { st := { s with braces := s.braces + 1 }, n := 1, ty := .LBRACE, lit := [123] }
+  else if s.char == 125 then { st := { s with braces := s.braces - 1 }, n := 1, ty := .RBRACE, lit := [125] }
+  else if s.char == 40 then
+    { st := (if s.isDirective then { s with parens := s.parens + 1 } else s), n := 1, ty := .LPAREN, lit := [40] }
+  else if s.char == 41 then
+    { st := (if s.isDirective && s.parens - 1 == 0 then { s with parens := s.parens - 1, isDirective := false, isHTML := true }
+             else if s.isDirective then { s with parens := s.parens - 1 } else s),
+      n := 1, ty := .RPAREN, lit := [41] }
+  else if s.char == 34 || s.char == 39 then strDesc s
+  else opDesc s
+
+/-- `embeddedCodeToken` -/
+def codeDesc (s : Lx) : TokDesc :=
+  match simpleToken s.char with
+  | some ty => { st := s, n := 1, ty := ty, lit := [s.char] }
+  | none => bracketDesc s
+
+def embeddedCodeToken (s : Lx) : Token × Lx := (codeDesc s).emit
 
 /-- `skipComment`, called with the current byte at the "--" that follows "{{" -/
 def skipComment (s : Lx) : Lx :=
@@ -253,29 +279,29 @@ def skipComment (s : Lx) : Lx :=
   if s2.isEOF then s2
   else ({ s2 with isHTML := true }).advance 4
 
-/-- the body of `NextToken` without its tail call -/
-def nextStep (s0 : Lx) : LexStep × Lx :=
-  let s := if !s0.isHTML then s0.advance (s0.rest.takeWhile isWs).length else s0
-  if s.isEOF then
-    let s1 := s.tokenBegins
-    (.tok (s1.newToken .EOF []), s1)
+/-- `skipWhitespace` (only in code mode) -/
+def skipWs (s : Lx) : Lx :=
+  if !s.isHTML then s.advance (s.rest.takeWhile isWs).length else s
+
+/-- the HTML branch of `NextToken`: `readHTML` -/
+def htmlToken (s : Lx) : Token × Lx :=
+  let (t, s1) := emit s (htmlScan s.prev [] 0 false s.rest).2.1 .HTML (htmlScan s.prev [] 0 false s.rest).1.reverse
+  (t, { s1 with panicked := s1.panicked || (htmlScan s.prev [] 0 false s.rest).2.2 })
+
+/-- the body of `NextToken` after `skipWhitespace`, without its tail call -/
+def stepAt (s : Lx) : LexStep × Lx :=
+  if s.isEOF then (.tok (s.tokenBegins.newToken .EOF []), s.tokenBegins)
   else if s.char == 123 && s.peek == 123 then
-    let (t, s1) := bracesToken s .LBRACES [123, 123]
-    if s1.char == 45 && s1.peek == 45 then (.again, skipComment s1) else (.tok t, s1)
+    if (bracesToken s .LBRACES [123, 123]).2.char == 45 && (bracesToken s .LBRACES [123, 123]).2.peek == 45 then
+      (.again, skipComment (bracesToken s .LBRACES [123, 123]).2)
+    else (.tok (bracesToken s .LBRACES [123, 123]).1, (bracesToken s .LBRACES [123, 123]).2)
   else if !s.isHTML && s.char == 125 && s.peek == 125 && s.braces == 0 then
-    let (t, s1) := bracesToken s .RBRACES [125, 125]
-    (.tok t, s1)
-  else if !s.isHTML then
-    let (t, s1) := embeddedCodeToken s
-    (.tok t, s1)
-  else if (isDirectiveToken s).1 then
-    let (t, s1) := directiveToken s
-    (.tok t, s1)
-  else
-    let s1 := s.tokenBegins
-    let (out, n, pan) := htmlScan s1.prev [] 0 false s1.rest
-    let s2 := { s1.advance n with panicked := s1.panicked || pan }
-    (.tok (s2.newToken .HTML out.reverse), s2)
+    (.tok (bracesToken s .RBRACES [125, 125]).1, (bracesToken s .RBRACES [125, 125]).2)
+  else if !s.isHTML then (.tok (embeddedCodeToken s).1, (embeddedCodeToken s).2)
+  else if (isDirectiveToken s).1 then (.tok (directiveToken s).1, (directiveToken s).2)
+  else (.tok (htmlToken s).1, (htmlToken s).2)
+
+def nextStep (s : Lx) : LexStep × Lx := stepAt (skipWs s)
 
 /-- all tokens up to and including the first `EOF`, and the final lexer state.
     `fuel` bounds the number of `NextToken` bodies executed. -/
